@@ -263,6 +263,13 @@ class SimWorker:
         bid, jid = cfg['batch_id'], cfg['job_id']
         if (bid, jid) in self.jobs:
             self.ctx.probe('worker_refused_duplicate_job')
+            # remembered for the C39 oracle: an attempt the worker explicitly refused is never run by anybody
+            refused = getattr(self.w, 'refused_attempts', None)
+            if refused is None:
+                refused = self.w.refused_attempts = set()
+            if self.jobs[(bid, jid)].attempt_id != cfg['job_spec'].get('attempt_id'):
+                # (a re-sent create for the attempt it already runs is refused too, but that attempt IS being run)
+                refused.add((bid, jid, cfg['job_spec'].get('attempt_id')))
             return 403, 'Forbidden', {}, b''
         js = cfg['job_spec']
         job = SimJob(bid, jid, js['attempt_id'], js.get('job_group_id', 0), None, cfg)
